@@ -78,6 +78,12 @@ STRENGTHENED = {
     'C19_7': 'missed at first (an intruding DM14 with command operation completed): the intruder\'s command is now drawn from read / write / operation completed / erase (operation completed also enumerated after every frame)',
     'C01_10': 'pre-emptive: SimLock reports a thread that asks again for a non-reentrant lock it holds (a reply handled inside the call that holds it) as clause hang instead of parking it for ever',
     'C12_9': 'pre-emptive: idle gaps that are not whole milliseconds',
+    # ---- round 6 (one agent per source file area again, 169 earlier titles to stay away from)
+    'C16_14': 'missed at first (the receiver refreshes the dicts it handed out earlier): the C16 subscriber now keeps the lamp dict and code list it was given and they are compared with copies taken at delivery at the end of the run',
+    'C11_15': 'missed at first because the seam misrepresented the code under test: threading.current_thread() returned the real OS thread, never the simulated job thread, so `current_thread() is self._job_thread` was always false; the stand-in now returns the running simulated thread (the change was then caught by the checks as they were)',
+    'C05_10': 'missed at first (subscribe drops a callable that is already registered): C05 registered a different closure per listener; in a quarter of the runs one callable is now shared by all CAs and ECU-level listeners of the stack and the number of calls is judged',
+    'C12_10': 'missed at first (duplicate registrations through ControllerApplication.subscribe survive unsubscribe): C12 subscribed at the ECU only; subscribe / unsubscribe now also go through a CA of the stack',
+    'C03_9': 'missed by C03 at first (caught by C02): reply latency 0 was an event 0 ns later, after the send call had returned; with the stack as originator C03 now also uses a zero-latency bus and a reference peer that answers inside its frame handler',
     'C09_10': 'NOT CAUGHT: needs a responder that re-requests an earlier segment with a CTS, a freedom the reference peer does not use and that neither C03 nor C09 lists among the peer\'s choices (DESIGN 10, 12.9)',
 }
 rows = []
